@@ -84,11 +84,25 @@ SUB_BASE = [None, 0, 1, 0]
 BAD_TAG = 99
 
 
+def make_render_cls(prefix, c, classes, par, mix, mixins=None):
+    """``class C(before..., classes[par[c]], [mid..., classes[g],] after...)`` where the mix-ins are fresh
+    plain classes (``mix[c] = [n_before, n_after, n_mid, g]``; no ``mix``: the render base alone)."""
+    if not mix or not any(mix[c][:3]):
+        return RMeta(uniq(f"{prefix}{c}"), (classes[par[c]],), {})
+    nb, na, nm, g = mix[c]
+    made = [type(uniq(f"Mixin{c}x{j}"), (), {"helper": lambda self: 42}) for j in range(nb + na + nm)]
+    if mixins is not None:
+        for j, m in enumerate(made):
+            mixins[m] = (c, j)
+    bases = made[:nb] + [classes[par[c]]] + ((made[nb + na:] + [classes[g]]) if nm else []) + made[nb:nb + na]
+    return RMeta(uniq(f"{prefix}{c}"), tuple(bases), {})
+
+
 def run_prog(case):
     par, nsd = case["par"], case["nsd"]
     classes = [Renderable]
     for c in range(1, len(par)):
-        cls = RMeta(uniq(f"C{c}"), (classes[par[c]],), {})
+        cls = make_render_cls("C", c, classes, par, case.get("mix"))
         if nsd[c] is not None:
             make_args_cls(cls, nsd[c])  # associated before any subclass / use
         classes.append(cls)
@@ -1076,8 +1090,47 @@ def run_nsvirt(case):
     return {"probes": probes, "keys0": [keys_of(RenderArgs(R)) for R in classes], "unchanged": before == after}
 
 
+def run_nsmix(case):
+    """render class statements listing plain mix-in classes: the MRO of every class, the owner classes of the
+    namespaces its default set holds, and the outcome of RenderArgs(T, A.Args(7)) for every owner class A"""
+    par, own, mix = case["par"], case["own"], case["mix"]
+    classes, mixins = [Renderable], {}
+    for c in range(1, len(par)):
+        R = make_render_cls("X", c, classes, par, mix, mixins)
+        if own[c]:
+            make_args_cls(R, [0])                                 # associated before subclassing
+        classes.append(R)
+    index = {R: c for c, R in enumerate(classes)}
+
+    def item(K):
+        if K in index:
+            return [index[K], 0]
+        if K in mixins:
+            return [mixins[K][0], mixins[K][1] + 1]
+        return [999, 999]
+    mros = [[item(K) for K in R.__mro__ if K is not object] for R in classes]
+    held, acc = [], []
+    for T in classes:
+        held.append([index.get(ns.get_render_cls(), 999) for ns in RenderArgs(T)])
+        row = []
+        for a, A in enumerate(classes):
+            if not own[a]:
+                row.append(9)
+                continue
+            ns = A.Args(7)
+            try:
+                r = RenderArgs(T, ns)
+            except Exception as e:  # noqa: BLE001
+                row.append(1 + err_code(e))
+                continue
+            ok = r[A] is ns and all(x is ns or x is RenderArgs(T)[x.get_render_cls()] for x in r)
+            row.append(0 if ok else 98)
+        acc.append(row)
+    return {"mro": mros, "held": held, "acc": acc}
+
+
 def run_case(case):
-    return {"prog": run_prog, "stmt": run_stmt, "ctor": run_ctor, "rend": run_rend,
+    return {"prog": run_prog, "nsmix": run_nsmix, "stmt": run_stmt, "ctor": run_ctor, "rend": run_rend,
             "nsprog": run_nsprog, "nssub": run_nssub, "intern": run_intern,
             "nsexp": run_nsexp, "nsvirt": run_nsvirt}[case["type"]](case)
 
